@@ -1125,9 +1125,8 @@ func (c *Conn) writeRequest(ctx *Ctx) error {
 
 	if hasBody {
 		pb := &pendingBody{
-			ctx:    ctx,
-			window: c.streamWindow,
-			size:   -1,
+			ctx:  ctx,
+			size: -1,
 		}
 
 		if bodyStream {
@@ -1140,7 +1139,12 @@ func (c *Conn) writeRequest(ctx *Ctx) error {
 			pb.body = req.Body()
 		}
 
+		// The initial window is read under the lock the read loop changes it
+		// under, together with the entry that makes the stream visible to
+		// applyInitialWindow: the stream gets either the new value or the old
+		// one and the delta, never one of them twice or not at all.
 		c.sendLck.Lock()
+		pb.window = c.streamWindow
 		c.pending[id] = pb
 		c.sendLck.Unlock()
 	}
